@@ -110,6 +110,8 @@ _scalars = st.one_of(
     st.booleans(), st.none(),
     st.text(alphabet=st.sampled_from(list('ab=:-> ,\'"\\\n{}()x1')), max_size=6),
     st.text(max_size=4),
+    # strings whose content is itself a literal (a parser applied twice would unwrap them)
+    st.sampled_from(['1', '2.5', 'None', ' 7', '[1, 2]', "'q'", 'True', '(1,)', '"x"', '-1', '{1: 2}']),
     st.binary(max_size=3),
     st.builds(complex, st.integers(-3, 3), st.integers(1, 3)),
 )
